@@ -103,8 +103,8 @@ def doc(ctx, opts):
         for t in k:
             ctx.add(z3.Or(t == 32, t == 9))
         cont = S('\\', k, nl)
-    r1 = S(trow, ws, '1', ws, l1_text, ws, cont, 'ALPHA', ws, '{ab', ws, 'x}', ws, '{1.5 2.5}', tc)
-    r2 = S(tname.lower(), ' 2 "q r" EPSILON {"" yy} {3.0 4.0}')
+    r1 = S(trow, ws, '1', ws, l1_text, ws, cont, 'ALPHA', ws, '{abc', ws, 'x}', ws, '{1.5 2.5}', tc)
+    r2 = S(tname.lower(), ' 2 "q r" EPSILON {"" yyyy} {3.0 4.0}')
     s1 = S(oname, ' 5 ', 'w1')
     s2 = S(oname.lower(), ' 6 longer')
     rows = [[r1, r2, s1, s2], [s1, r1, s2, r2], [r1, s1, r2, s2]][o['interleave']]
@@ -115,7 +115,7 @@ def doc(ctx, opts):
         text = piece if text is None else text + piece
     expected = {
         'pairs': {'name': S('value', V), 'mjd': '54579'},
-        tname.upper(): {'id': [1, 2], 'label': [S(L1), 'q r'], 'e': ['ALPHA', 'EPSILON'], 'tags': [['ab', 'x'], ['', 'yy']], 'x': [[1.5, 2.5], [3.0, 4.0]]},
+        tname.upper(): {'id': [1, 2], 'label': [S(L1), 'q r'], 'e': ['ALPHA', 'EPSILON'], 'tags': [['abc', 'x'], ['', 'yyyy']], 'x': [[1.5, 2.5], [3.0, 4.0]]},
         oname.upper(): {'n': [5, 6], 'w': ['w1', 'longer']},
         'order': [tname.upper(), oname.upper()],
     }
